@@ -159,7 +159,7 @@ func returnsGlobalErr(ret *ssa.Return, g *ssa.Global) bool {
 	if k < 0 || k >= len(ret.Results) {
 		return false
 	}
-	return valueMentionsGlobal(ret.Results[k], g, 0)
+	return valueMentionsGlobal(ReturnValue(ret, k), g, 0)
 }
 
 func valueMentionsGlobal(v ssa.Value, g *ssa.Global, depth int) bool {
